@@ -2,6 +2,7 @@
 from __future__ import annotations
 
 import itertools
+import json
 import math
 from fractions import Fraction
 
@@ -145,6 +146,131 @@ def exact_as_float(fr):
         return F(float(fr)) == fr
     except OverflowError:
         return False
+
+
+# ------------------------------------------------------------------------------------------------
+# round 4: exact lattice statements (integer coordinates of any magnitude) and vectorised statements
+# (large numbers of triangles)
+# ------------------------------------------------------------------------------------------------
+EPS = 2.0 ** -52
+SHARP_RATIO = 2 ** 10     # coordinate scale / triangle size beyond which 1e-9*scale no longer resolves a triangle
+
+
+def lattice_keys(ts, side, xo, yo, tol):
+    """triangles (exact Fractions) -> list of frozensets of integer lattice points, in units of
+    (side/4, h*side/2) measured from (xo, yo); None when a vertex is further than `tol` from that lattice."""
+    ux, uy = side / 4, H * side / 2
+    out = []
+    for t in ts:
+        key = []
+        for v in t:
+            i, j = (v[0] - xo) / ux, (v[1] - yo) / uy
+            ir, jr = round(i), round(j)
+            if abs(i - ir) * ux > tol or abs(j - jr) * uy > tol:
+                return None
+            key.append((ir, jr))
+        out.append(tuple(sorted(key)))
+    return out
+
+
+PERMS3 = list(itertools.permutations(range(3)))
+
+
+def np_lattice(coords, side, xo, yo, flipped):
+    """(N,3,2) float vertex triangles of integer coordinates: the definition (equilateral, side `side`,
+    mid-height centre at (side/2*x + xo, h*side*y + yo), up when x+y is even unless the set is flipped)."""
+    c = np.asarray(coords)
+    x, y = c[:, 0].astype(float), c[:, 1].astype(float)
+    ci = np.rint(c).astype(np.int64)
+    cx, cy = side / 2 * x + xo, H_FLOAT * side * y + yo
+    up = (((ci[:, 0] + ci[:, 1]) % 2) == 0) != bool(flipped)
+    s = np.where(up, 1.0, -1.0)
+    hh = H_FLOAT * side / 2
+    return np.stack([np.stack([cx, cy + s * hh], 1), np.stack([cx + side / 2, cy - s * hh], 1),
+                     np.stack([cx - side / 2, cy - s * hh], 1)], 1)
+
+
+def np_children(T):
+    a, b, c = T[:, 0], T[:, 1], T[:, 2]
+    ab, bc, ca = (a + b) / 2, (b + c) / 2, (c + a) / 2
+    return np.concatenate([np.stack([a, ab, ca], 1), np.stack([b, bc, ab], 1), np.stack([c, ca, bc], 1),
+                           np.stack([ab, bc, ca], 1)], 0)
+
+
+def np_neighbours(T):
+    a, b, c = T[:, 0], T[:, 1], T[:, 2]
+    return np.concatenate([T, np.stack([b + c - a, b, c], 1), np.stack([a, a + c - b, c], 1),
+                           np.stack([a, b, a + b - c], 1)], 0)
+
+
+def np_area2(T):
+    return ((T[:, 1, 0] - T[:, 0, 0]) * (T[:, 2, 1] - T[:, 0, 1])
+            - (T[:, 1, 1] - T[:, 0, 1]) * (T[:, 2, 0] - T[:, 0, 0]))
+
+
+def np_rows_match(A, B, tol):
+    """row i of A and row i of B have the same three vertices (any order) within tol"""
+    ok = np.zeros(len(A), dtype=bool)
+    for p in PERMS3:
+        ok |= np.abs(A - B[:, p, :]).reshape(len(A), -1).max(axis=1) <= tol
+    return ok
+
+
+def np_unmatched(A, B, tol, limit=50):
+    """indices of triangles of A that have no partner (same vertex set within tol) in B"""
+    if len(A) == 0:
+        return []
+    if len(B) == 0:
+        return list(range(min(len(A), limit)))
+    from scipy.spatial import cKDTree
+
+    tree = cKDTree(B.mean(axis=1))
+    k = min(8, len(B))
+    _, j = tree.query(A.mean(axis=1), k=k, p=np.inf, distance_upper_bound=2 * tol)
+    j = np.asarray(j).reshape(len(A), k)
+    found = np.zeros(len(A), dtype=bool)
+    for col in range(k):
+        idx = np.where((j[:, col] < len(B)) & ~found)[0]
+        if len(idx):
+            found[idx] = np_rows_match(A[idx], B[j[idx, col]], tol)
+    out = []
+    for i in np.where(~found)[0][:limit]:   # the few left: against every triangle of B
+        if not np_rows_match(np.broadcast_to(A[i], B.shape), B, tol).any():
+            out.append(int(i))
+    return out
+
+
+def np_set_diff(A, B, tol, what):
+    u = np_unmatched(A, B, tol)
+    if u:
+        return f"{what}: triangle {A[u[0]].tolist()} (#{u[0]}) of impl is not in the expected set ({len(u)}+ such)"
+    u = np_unmatched(B, A, tol)
+    if u:
+        return f"{what}: expected triangle {B[u[0]].tolist()} is missing in impl ({len(u)}+ such)"
+    return None
+
+
+def np_bary_min(T, p):
+    """(nondegenerate, smallest normalised orientation) of point p against every triangle"""
+    d = np_area2(T)
+    P = np.broadcast_to(np.asarray(p, dtype=float), (len(T), 2))
+
+    def o(a, b):
+        return (b[:, 0] - a[:, 0]) * (P[:, 1] - a[:, 1]) - (b[:, 1] - a[:, 1]) * (P[:, 0] - a[:, 0])
+
+    with np.errstate(divide="ignore", invalid="ignore"):
+        m = np.minimum(np.minimum(o(T[:, 0], T[:, 1]) / d, o(T[:, 1], T[:, 2]) / d), o(T[:, 2], T[:, 0]) / d)
+    return d != 0, m
+
+
+def shape_ref(s):
+    """reference point of a shape, independently of the code (exact)"""
+    if s["kind"] in ("point", "circle", "flaky"):
+        return (F(s["x"]), F(s["y"]))
+    if s["kind"] == "square":
+        return ((F(s["left"]) + F(s["right"])) / 2, (F(s["top"]) + F(s["bottom"])) / 2)
+    vs = [(F(a), F(b)) for a, b in s["vertices"]]
+    return (sum(v[0] for v in vs) / len(vs), sum(v[1] for v in vs) / len(vs))
 
 
 # ------------------------------------------------------------------------------------------------
@@ -349,6 +475,10 @@ class C20(PropertyCheck):
             yield {"tag": "arr_limits", "kind": "arr", "limits":
                    {"y_min": q(y0), "y_max": q(y0 + hh), "x_min": q(x0), "x_max": q(x0 + w), "scale": q(scale)},
                    "ops": rng.choice([["up"], ["nb"], ["up", "nb"], [{"idx": [0]}, "up"]])}
+        # 6.-8. round-4 hardening: coordinate magnitude, refinement depth, histories on reused objects
+        yield from self._magnitude_stream(tier, rng)
+        yield from self._deep_stream(tier, rng)
+        yield from self._history_stream(tier, rng)
 
     IDX_FORMS = ["int64", "int32", "list", "bool", "bool_list", "empty"]
 
@@ -423,6 +553,321 @@ class C20(PropertyCheck):
         offs.append(last)
         sc = rng.choice([F(1, 64), F(1, 4), F(1)])
         return {"kind": "polygon", "vertices": [[q(px + sc * a), q(py + sc * b)] for a, b in offs]}
+
+    # ------------------------------------------------------------------ round 4: generators
+    # (A) coordinate MAGNITUDE: integer coordinates near the limits of narrower number formats.  The buffers
+    #     of up_sample / neighborhood hold 2c, 2c+-1, c+-1: exact in float64 up to 2^53, in float32 only up
+    #     to 2^24, in int32 up to 2^31.  |c| <= 2^52-16 so that the as-is float64 buffers are exact.
+    MAG_LIMIT = 2 ** 52 - 16
+    MAG_FIXED = [2 ** 23 - 2, 2 ** 23 + 1, 2 ** 24 - 3, 2 ** 24 + 1, 2 ** 31 - 2, 2 ** 31 + 1, 2 ** 32 + 5,
+                 2 ** 40 + 3, 2 ** 52 - 21]
+    MAG_CHAINS = [["up"], ["nb"], ["up", "nb"], ["nb", "up"], [{"idx": [1, 0, 2, 2], "form": "int64"}, "up"],
+                  ["nb", "nb"], ["up", "up"], [{"idx": [0, 3], "form": "bool"}, "nb"]]
+
+    def _mag_cases(self, rng, mags, tag):
+        k = 0
+        for M0 in mags:
+            M = min(int(M0), self.MAG_LIMIT)
+            for axis in ("x", "y", "xy"):
+                if axis == "xy":       # flip_mask adds x + y in the coordinates' own float64: |2x| + |2y| < 2^53
+                    M = min(M, 2 ** 51 - 16)
+                for fl in (False, True):
+                    sgn = 1 if k % 2 == 0 else -1
+                    m2 = M // 3 + 5
+                    base = {"x": [[M, 3], [M + 1, 3], [M + 2, 4], [M - 1, -7], [M + 5, 4]],
+                            "y": [[3, M], [4, M], [4, M + 1], [-7, M - 1], [6, M + 2]],
+                            "xy": [[M, m2], [M + 1, m2], [M + 1, m2 + 1], [M - 2, m2 - 1], [M + 4, m2 + 3]]}[axis]
+                    coords = [[sgn * a, sgn * b] for a, b in base]
+                    side = [F(1), F(1, 2), F(3, 2), F(2)][k % 4]
+                    chains = [c for c in self.MAG_CHAINS if not (M > 2 ** 49 and c == ["up", "up"])]
+                    ch = chains[k % len(chains)]
+                    # x is scaled by the dyadic side/2: an exactly cancelling offset brings the set back to
+                    # the origin, where 1e-9 resolves the triangles (only while side/2*M is an exact double)
+                    cancel = axis == "x" and M < 2 ** 40 and k % 3 != 1
+                    xo = -(side / 2) * sgn * M + F(1, 4) if cancel else gen.dyadic(rng, -4, 4, 3)
+                    yo = gen.dyadic(rng, -4, 4, 3)
+                    c = self._coord_case(f"{tag}_{axis}", coords, side, xo, yo, fl, ch)
+                    c["coord_dtype"] = "float64" if k % 3 == 1 else "int64"
+                    c["int_scalars"] = k % 2 == 0
+                    if k % 4 == 3:
+                        t = coord_triangle(coords[0][0], coords[0][1], side, xo, yo, fl)
+                        px = F(float((t[0][0] * 2 + t[1][0] + t[2][0]) / 4))
+                        py = F(float((t[0][1] * 2 + t[1][1] + t[2][1]) / 4))
+                        c["probe"] = [{"kind": "point", "x": q(px), "y": q(py)}]
+                        c["probe_pos"] = "first"
+                    k += 1
+                    yield c
+
+    def _magnitude_stream(self, tier, rng):
+        mags = self.MAG_FIXED if tier == "quick" else self.MAG_FIXED + [2 ** 23, 2 ** 24, 2 ** 24 + 2, 2 ** 30 + 1,
+                                                                        2 ** 31, 2 ** 36 + 7, 2 ** 48 + 1, 2 ** 51 + 9]
+        yield from self._mag_cases(rng, mags, "mag")
+
+    # (B) DEPTH: the refinement loop of a point solver — keep the triangles containing the point, (add the
+    #     neighbours,) up-sample — repeated; the integer coordinates double at every level.
+    def _deep_case(self, rng, levels, tag, with_nb, from_limits):
+        # at least half a unit from the lattice origin on both axes, so that the coordinates really double per level
+        px = rng.choice([-1, 1]) * (F(1, 2) + gen.dyadic(rng, 0, 2, 10) + F(1, 2 ** 12))
+        py = rng.choice([-1, 1]) * (F(1, 2) + gen.dyadic(rng, 0, 2, 10) + F(1, 2 ** 13))
+        if not from_limits:
+            xo0, yo0 = gen.dyadic(rng, -2, 2, 3), gen.dyadic(rng, -2, 2, 3)
+            px, py = px + xo0, py + yo0
+        pt = {"kind": "point", "x": q(px), "y": q(py)}
+        ops = []
+        for lv in range(levels):
+            ops.append({"sel": pt})
+            if with_nb and lv % with_nb == 1:
+                ops += ["nb", {"sel": pt}]
+            ops.append("up")
+        ops.append({"sel": pt})
+        if from_limits:
+            sc = rng.choice([F(1), F(1, 2), F(3, 2)])
+            return {"tag": tag, "kind": "coord", "limits": {"x_min": q(px - 1), "x_max": q(px + 1), "y_min": q(py - 1),
+                                                            "y_max": q(py + 1), "scale": q(sc)}, "ops": ops,
+                    "probe": [pt], "probe_pos": "first"}
+        side = rng.choice([F(1), F(3, 2), F(2)])
+        xo, yo = xo0, yo0
+        fl = rng.random() < 0.5
+        cx, cy = int((px - xo) / (side / 2)), int((py - yo) / (H * side))
+        coords = [[x, y] for x in range(cx - 2, cx + 3) for y in range(cy - 2, cy + 3)]
+        c = self._coord_case(tag, coords, side, xo, yo, fl, ops)
+        c["probe"], c["probe_pos"] = [pt], "last"
+        return c
+
+    def _deep_stream(self, tier, rng):
+        plan = [(27, 0, True), (31, 3, False)] if tier == "quick" else \
+            [(23, 0, True), (25, 2, False), (27, 0, False), (29, 3, True), (31, 4, False), (33, 0, True),
+             (36, 5, False), (40, 0, True)]
+        for levels, with_nb, lim in plan:
+            yield self._deep_case(rng, levels, f"deep_{levels}", with_nb, lim)
+
+    # (C) HISTORIES on real, reused objects
+    def _rand_coord_world(self, rng, kmin=2, kmax=8):
+        k = rng.randint(kmin, kmax)
+        span = rng.choice([2, 4, 9])
+        coords = [[rng.randint(-span, span), rng.randint(-span, span)] for _ in range(k)]
+        side = rng.choice([F(1, 4), F(1, 2), F(1), F(3, 2), F(2), F(3), F(5, 8)])
+        xo = gen.dyadic(rng, -4, 4, 3) if rng.random() < 0.7 else F(0)
+        yo = gen.dyadic(rng, -4, 4, 3) if rng.random() < 0.7 else F(0)
+        c = self._coord_case("hist", coords, side, xo, yo, rng.random() < 0.5, [])
+        c["coord_dtype"] = rng.choice(["int64", "int64", "int32", "float64"])
+        return c
+
+    def _rand_arr_world(self, rng):
+        nv = rng.randint(4, 9)
+        verts = [[gen.dyadic(rng, -8, 8, 3), gen.dyadic(rng, -8, 8, 3)] for _ in range(nv)]
+        nt = rng.randint(2, 7)
+        idx = [rng.sample(range(nv), 3) for _ in range(nt)]
+        return {"tag": "hist", "kind": "arr", "vertices": [[q(a), q(b)] for a, b in verts], "indices": idx, "ops": []}
+
+    @staticmethod
+    def _world_tris(c):
+        """exact stage-0 triangles of an explicit world"""
+        if c["kind"] == "coord":
+            return [coord_triangle(x, y, F(c["side"]), F(c["x_offset"]), F(c["y_offset"]), c["flipped"])
+                    for x, y in c["coords"]]
+        vs = [(F(a), F(b)) for a, b in c["vertices"]]
+        return [tuple(vs[i] for i in r) for r in c["indices"]]
+
+    @staticmethod
+    def _pt(t, w):
+        px = F(float(sum(w[i] * t[i][0] for i in range(3))))
+        py = F(float(sum(w[i] * t[i][1] for i in range(3))))
+        return {"kind": "point", "x": q(px), "y": q(py)}
+
+    def _inner_point(self, rng, t):
+        a = F(rng.randint(2, 5), 8) + F(1, 64)
+        b = F(rng.randint(1, 2), 8) + F(1, 128)
+        return self._pt(t, (a, b, 1 - a - b))
+
+    def _hug_pair(self, t):
+        """two points ~1e-6 apart (inside np.allclose's default tolerance, far outside 1e-9) on either side
+        of an edge of t: the first inside, the second outside"""
+        e = F(1, 2 ** 21)
+        return [self._pt(t, (F(1, 2) + 2 * e, F(1, 2) - 3 * e, e)), self._pt(t, (F(1, 2) + 2 * e, F(1, 2) - e, -e))]
+
+    def _hist_chain(self, rng, n):
+        r = rng.random()
+        perm = list(range(n))
+        rng.shuffle(perm)
+        sub = {"idx": perm[:max(1, (n + 1) // 2)] + [perm[0]], "form": rng.choice(["int64", "list", "int32"])}
+        if r < 0.2:
+            return [sub]
+        if r < 0.35:
+            return ["nb"]
+        if r < 0.5:
+            return [sub, "nb"]
+        if r < 0.6:
+            return ["nb", {"idx": [2, 0, 1], "form": "list"}]
+        if r < 0.7:
+            return ["up", "nb"]
+        if r < 0.8:
+            return [{"idx": sorted(perm[:max(1, n // 2)]), "form": "bool"}, "up"]
+        if r < 0.9:
+            return ["nb", "nb"]
+        return [sub, "up", {"idx": [3, 1], "form": "int64"}]
+
+    def _perturbed(self, rng, w):
+        """a near-duplicate twin of a world: one parameter moved by ~2^-18 relative (exact doubles)"""
+        t = json.loads(json.dumps(w))
+        e = F(1, 2 ** 18)
+        if w["kind"] == "coord":
+            key = rng.choice(["side", "x_offset", "y_offset", "side"])
+            v = F(w[key])
+            t[key] = q(v * (1 + e) if v != 0 else F(1, 2 ** 33))
+        else:
+            i, j = rng.randrange(len(w["vertices"])), rng.randrange(2)
+            v = F(w["vertices"][i][j])
+            t["vertices"][i][j] = q(v * (1 + e) if v != 0 else F(1, 2 ** 33))
+        return t
+
+    def _history_stream(self, tier, rng):
+        quick = tier == "quick"
+        mk = lambda: self._rand_coord_world(rng) if rng.random() < 0.6 else self._rand_arr_world(rng)  # noqa: E731
+
+        # H1. containing_indices of probe shapes at EVERY stage of a chain (before deriving, on the derived
+        #     set, ...), the query before or after the other reads, with / without decoy reads of every other
+        #     derived quantity and sibling operation; near-duplicate probe pairs on either side of an edge
+        for i in range(50 if quick else 450):
+            c = mk()
+            ts = self._world_tris(c)
+            t = ts[rng.randrange(len(ts))]
+            if area2(t) == 0:
+                continue
+            if i % 3 == 0:
+                c["probe"] = self._hug_pair(t)
+            elif i % 3 == 1:
+                c["probe"] = [self._inner_point(rng, t)]
+            else:
+                c["probe"] = [self._shape_for(rng, ts), self._inner_point(rng, t)]
+            c["probe_pos"] = "first" if i % 2 == 0 else "last"
+            if i % 4 == 1:
+                c["decoy"] = "a" if i % 8 == 1 else "b"
+            c["ops"] = self._hist_chain(rng, len(ts))
+            c["tag"] = f"hist_probe_{c['kind']}"
+            yield c
+        # H2. short refinement loops: select by shape, derive, select again on the derived set
+        for i in range(16 if quick else 150):
+            c = mk()
+            ts = self._world_tris(c)
+            t = ts[rng.randrange(len(ts))]
+            if area2(t) == 0:
+                continue
+            pt = self._inner_point(rng, t)
+            c["ops"] = rng.choice([[{"sel": pt}, "up", {"sel": pt}], ["nb", {"sel": pt}, "nb", {"sel": pt}],
+                                   [{"sel": pt}, "nb", {"sel": pt}, "up", {"sel": pt}],
+                                   ["up", {"sel": pt}, "nb", "up", {"sel": pt}]])
+            if i % 2:
+                c["probe"], c["probe_pos"] = [pt], "first"
+            c["tag"] = f"hist_select_{c['kind']}"
+            yield c
+        # H3. near-duplicate twins (same calls, one parameter moved by ~4e-6 relative; tiny sets moved by
+        #     ~1e-10 absolute), sharing the probe shape objects; H4. two different worlds sharing the shape
+        #     objects, and branches from one shared root object — each in both orders and interleaved
+        for i in range(36 if quick else 320):
+            a = mk()
+            ts = self._world_tris(a)
+            t = ts[rng.randrange(len(ts))]
+            if area2(t) == 0:
+                continue
+            mode = i % 3
+            probe = self._hug_pair(t) if i % 2 else [self._inner_point(rng, t)]
+            a["ops"] = self._hist_chain(rng, len(ts))
+            a["probe"] = probe
+            if mode == 0 and i % 12 == 3:   # twins of the constructor from limits and scale
+                sc = rng.choice([F(1), F(1, 2), F(3, 2)])
+                x0, y0 = gen.dyadic(rng, -3, 3, 2), gen.dyadic(rng, -3, 3, 2)
+                lim = {"x_min": q(x0), "x_max": q(x0 + 1), "y_min": q(y0), "y_max": q(y0 + 1), "scale": q(sc)}
+                probe = self._hug_pair(coord_triangle(int(2 * x0 / sc) + 1, int(y0 / (H * sc)) + 1, sc, F(0), F(0), False))
+                a = {"tag": "hist", "kind": "coord", "limits": lim, "ops": rng.choice([["nb"], ["up"], []]),
+                     "probe": probe}
+                b = json.loads(json.dumps(a))
+                key = rng.choice(["scale", "x_min", "y_max", "scale"])
+                v = F(lim[key])
+                b["limits"][key] = q(v * (1 + F(1, 2 ** 18)) if v != 0 else F(1, 2 ** 20))
+                worlds, tag, share_root = [a, b], "hist_twins_limits", False
+            elif mode == 0:      # twins
+                if i % 4 == 0 and a["kind"] == "coord":   # tiny world: ~1e-10 absolute differences
+                    a["side"], a["x_offset"], a["y_offset"] = q(F(a["side"]) / 2 ** 30), q(F(a["x_offset"]) / 2 ** 30), \
+                        q(F(a["y_offset"]) / 2 ** 30)
+                    t = self._world_tris(a)[0]
+                    a["probe"] = probe = self._hug_pair(t)
+                b = self._perturbed(rng, a)
+                worlds, tag, share_root = [a, b], "hist_twins", False
+            elif mode == 1:    # different worlds, shared shape objects
+                b = mk()
+                b["ops"] = self._hist_chain(rng, len(self._world_tris(b)))
+                b["probe"] = probe
+                worlds, tag, share_root = [a, b], "hist_shared_shapes", False
+            else:              # branches of one root object: sibling operations in both orders
+                b = json.loads(json.dumps(a))
+                b["ops"] = self._hist_chain(rng, len(ts))
+                c3 = json.loads(json.dumps(a))
+                c3["ops"] = ["up"] if "up" not in a["ops"] else ["nb"]
+                worlds, tag, share_root = [a, b, c3], "hist_branches", True
+                for w in worlds:
+                    w["probe_pos"] = "first"
+            yield {"tag": tag, "kind": "multi", "worlds": worlds, "order": ["seq", "rev", "interleave"][(i // 3) % 3],
+                   "share_shapes": True, "share_root": share_root}
+        # H5. fault, then reuse of the same objects
+        for i in range(24 if quick else 200):
+            c = mk()
+            ts = self._world_tris(c)
+            t = ts[rng.randrange(len(ts))]
+            if area2(t) == 0:
+                continue
+            pt = self._inner_point(rng, t)
+            # the query that follows a fault differs from the one before it (another triangle, or outside)
+            others = [u for u in ts if area2(u) != 0 and set(u) != set(t)]
+            fpt = self._inner_point(rng, others[rng.randrange(len(others))]) if others and i % 8 != 7 else \
+                self._pt(t, (F(3, 2), F(-1, 4), F(-1, 4)))
+            fault = [{"fault": "idx_oob"}, {"fault": "idx_oob_list"}, {"fault": "bad_vertices"},
+                     {"fault": "flaky_shape", "x": fpt["x"], "y": fpt["y"]}][i % 4]
+            tail = self._hist_chain(rng, len(ts))
+            c["ops"] = [[fault] + tail, tail[:1] + [fault] + tail[1:], [fault, fault] + tail][i % 3]
+            c["probe"], c["probe_pos"] = [fpt, pt], ("first" if i % 2 else "last")
+            if i % 5 == 0:
+                c["readonly"] = True
+            c["tag"] = f"hist_fault_{fault['fault']}"
+            yield c
+        # H6. in-place edits: a vertex of a vertex-array set (caller-visible array), attributes of a Point /
+        #     Circle probe object — the next read must be that of a fresh object in the edited state
+        for i in range(24 if quick else 200):
+            if i % 2 == 0:
+                c = self._rand_arr_world(rng)
+                nv = len(c["vertices"])
+                ed = lambda: {"edit": {"v": rng.randrange(nv), "to": [q(gen.dyadic(rng, -8, 8, 3)),  # noqa: E731
+                                                                      q(gen.dyadic(rng, -8, 8, 3))]}}
+                c["ops"] = [[ed(), "up"], [ed(), "nb"], [ed(), ed(), {"idx": [1, 0], "form": "list"}],
+                            [{"idx": [1, 0], "form": "list"}, ed(), "up"]][(i // 2) % 4]
+                if c["ops"][0] != {"idx": [1, 0], "form": "list"}:
+                    pass
+                else:   # after a selection the vertex table is the selection's own: at most 6 rows
+                    c["ops"][1]["edit"]["v"] = 0
+                ts = self._world_tris(c)
+                c["probe"] = [self._shape_for(rng, ts)]
+                c["decoy"] = "a" if i % 4 == 0 else None
+                c["tag"] = "hist_edit_vertices"
+            else:
+                c = mk()
+                ts = self._world_tris(c)
+                t, t2 = ts[rng.randrange(len(ts))], ts[rng.randrange(len(ts))]
+                if area2(t) == 0 or area2(t2) == 0:
+                    continue
+                p1, p2 = self._inner_point(rng, t), self._inner_point(rng, t2)
+                if i % 4 == 1:
+                    c["probe"] = [p1]
+                    e = {"shape_edit": {"i": 0, "x": p2["x"], "y": p2["y"]}}
+                else:
+                    c["probe"] = [{"kind": "circle", "x": p1["x"], "y": p1["y"], "radius": "1/64"}]
+                    e = {"shape_edit": {"i": 0, "x": p2["x"], "radius": rng.choice(["0", "1/2", "2"])}}
+                hug = self._hug_pair(t)
+                e2 = {"shape_edit": {"i": 0, "x": hug[1]["x"], "y": hug[1]["y"]}}
+                c["ops"] = [[e, "nb"], [e, e2], ["up", e, e2], [e2, {"idx": [0], "form": "list"}, e]][(i // 2) % 4]
+                c["probe_pos"] = "first" if i % 4 == 1 else "last"
+                c["tag"] = "hist_edit_shape"
+            c = {k: v for k, v in c.items() if v is not None}
+            yield c
 
     # ------------------------------------------------------------------ implementation
     def _build(self, aa_mod, case):
@@ -519,19 +964,173 @@ class C20(PropertyCheck):
                 "view_triangles": tris_json(tris_from_array(np.asarray(view.triangles, dtype=float))),
                 "view_vertices": [[q(float(v[0])), q(float(v[1]))] for v in np.asarray(view.vertices)]}
 
-    def run_impl(self, case):
-        aa = load_autoarray()
+    # ------------------------------------------------------------------ round 4: worlds, probes, histories
+    @staticmethod
+    def _num(case):
+        ints = case.get("int_scalars", False)
+
+        def fl(v):
+            fr = F(v)
+            return int(fr) if ints and fr.denominator == 1 else float(fr)
+
+        return fl
+
+    _flaky_cls = None
+
+    @classmethod
+    def _flaky(cls):
+        """a user-defined shape (a Point) whose mask raises on its first call and works afterwards"""
+        if cls._flaky_cls is None:
+            from autoarray.structures.triangles import shape as sh
+
+            class FlakyPoint(sh.Point):
+                def __init__(self, x, y, fail_on=1):
+                    super().__init__(x, y)
+                    self.calls, self.fail_on = 0, fail_on
+
+                def mask(self, triangles):
+                    self.calls += 1
+                    if self.calls == self.fail_on:
+                        raise RuntimeError("user shape failed")
+                    return super().mask(triangles)
+
+            cls._flaky_cls = FlakyPoint
+        return cls._flaky_cls
+
+    def _shape_obj(self, s, case, pool=None):
+        """the library's shape object for a shape spec; `pool` (spec -> object) makes worlds of one history
+        share the very same object"""
         from autoarray.structures.triangles import shape as sh
 
-        obj = self._build(aa, case)
+        ints = case.get("int_scalars", False)
+        fl = self._num(case)
+        key = json.dumps([s, bool(ints)], sort_keys=True)
+        if pool is not None and key in pool:
+            return pool[key]
+        if s["kind"] == "point":
+            shp = sh.Point(x=fl(s["x"]), y=fl(s["y"]))
+        elif s["kind"] == "flaky":
+            shp = self._flaky()(fl(s["x"]), fl(s["y"]), int(s.get("fail_on", 1)))
+        elif s["kind"] == "circle":
+            shp = sh.Circle(x=fl(s["x"]), y=fl(s["y"]), radius=fl(s["radius"]))
+        elif s["kind"] == "square":
+            shp = sh.Square(top=fl(s["top"]), bottom=fl(s["bottom"]), left=fl(s["left"]), right=fl(s["right"]))
+        else:
+            shp = sh.Polygon(vertices=[[fl(a), fl(b)] if ints else (fl(a), fl(b)) for a, b in s["vertices"]])
+        if pool is not None:
+            pool[key] = shp
+        return shp
+
+    @staticmethod
+    def _decoy(o, is_arr, mode):
+        """read every OTHER public derived quantity / sibling operation of the object (results discarded)
+        before the observed reads; mode "a": properties first, "b": sibling operations first."""
+        from autoarray.structures.triangles import shape as sh
+
+        def props():
+            _ = o.area, len(o), str(type(o)), o.means
+            _ = np.asarray(o.vertices).shape, np.asarray(o.indices).shape
+            for _t in o:
+                break
+            if not is_arr:
+                _ = o.centres, o.flip_mask, o.flip_array, o.scaling_factors
+            else:
+                _ = str(o), repr(o)
+
+        def siblings():
+            n = len(np.asarray(o.triangles))
+            _ = o.containing_indices(sh.Point(0.123, -0.321))
+            _ = o.containing_indices(sh.Circle(0.5, 0.25, 0.75))
+            _ = o.with_vertices(o.vertices).area
+            u, nb = o.up_sample(), o.neighborhood()
+            _ = u.triangles, nb.triangles, u.area
+            if n:
+                sel = o.for_indexes(np.array([n - 1, 0]))
+                _ = sel.triangles, sel.containing_indices(sh.Point(0.123, -0.321))
+
+        for f in ((props, siblings) if mode == "a" else (siblings, props)):
+            f()
+
+    def _apply2(self, obj, op, case, probes, pool):
+        """one history step: (object after the step, extra observations of the step)"""
+        if not isinstance(op, dict) or "idx" in op:
+            return self._apply(obj, op), {}
+        if "sel" in op:      # the refinement step of a point solver: keep the triangles containing the shape
+            shp = self._shape_obj(op["sel"], case, pool)
+            idx = np.asarray(obj.containing_indices(shp))
+            return obj.for_indexes(idx), {"sel_idx": [int(i) for i in idx],
+                                          "sel_ref": [q(float(shp.x)), q(float(shp.y))]}
+        if "fault" in op:    # a call that raises in the middle; the same object is used afterwards
+            kind, raised, extra = op["fault"], None, {}
+            n = len(np.asarray(obj.triangles))
+            shp = None
+            try:
+                if kind == "idx_oob":
+                    obj.for_indexes(np.array([0, n + 3]))
+                elif kind == "idx_oob_list":
+                    obj.for_indexes([n + 1])
+                elif kind == "bad_vertices":
+                    _ = obj.with_vertices(np.asarray(obj.vertices)[:1]).triangles
+                elif kind == "flaky_shape":
+                    shp = self._shape_obj({"kind": "flaky", "x": op["x"], "y": op["y"]}, case, None)
+                    obj.containing_indices(shp)
+            except Exception as e:  # noqa: BLE001 (the fault is the point of the step)
+                raised = type(e).__name__
+            extra = {"fault": kind, "raised": raised}
+            if shp is not None:
+                extra["after"] = [int(i) for i in np.asarray(obj.containing_indices(shp))]
+                extra["after_ref"] = [q(float(shp.x)), q(float(shp.y))]
+            return obj, extra
+        if "edit" in op:     # in-place edit of the (caller-visible) vertex array of a vertex-array set
+            e = op["edit"]
+            obj.vertices[int(e["v"])] = (float(F(e["to"][0])), float(F(e["to"][1])))
+            return obj, {}
+        if "shape_edit" in op:   # in-place edit of a probe shape object (Point / Circle attributes)
+            e = op["shape_edit"]
+            fl = self._num(case)
+            for k in ("x", "y", "radius"):
+                if k in e:
+                    setattr(probes[int(e["i"])], k, fl(e[k]))
+            return obj, {}
+        raise ValueError(f"unknown op {op}")
+
+    def _world(self, aa, case, pool, root=None):
+        """generator running one world (one triangle set + its chain of steps), yielding after every step;
+        returns the observation.  Probe shapes are queried with containing_indices at EVERY stage."""
         is_arr = case["kind"] == "arr"
         ob = self._obs_arr if is_arr else self._obs_coord
-        stages = [ob(obj)]
+        obj = root if root is not None else self._build(aa, case)
+        if case.get("readonly") and root is None:
+            for name in (("vertices", "indices") if is_arr else ("coordinates",)):
+                np.asarray(getattr(obj, name)).setflags(write=False)
+        probes = [self._shape_obj(s, case, pool) for s in case.get("probe", [])]
+        ppos, decoy = case.get("probe_pos", "last"), case.get("decoy")
+
+        def contain(o):
+            return {"containing": [[int(i) for i in np.asarray(o.containing_indices(p))] for p in probes],
+                    "refs": [[q(float(p.x)), q(float(p.y))] for p in probes]}
+
+        def observe(o):
+            st = {}
+            if probes and ppos == "first":
+                st.update(contain(o))
+            if decoy:
+                self._decoy(o, is_arr, decoy)
+            st.update(ob(o))
+            if probes and ppos != "first":
+                st.update(contain(o))
+            return st
+
+        stages = [observe(obj)]
+        yield
         for op in case["ops"]:
-            obj = self._apply(obj, op)
-            stages.append(ob(obj))
+            obj, extra = self._apply2(obj, op, case, probes, pool)
+            st = observe(obj)
+            st.update(extra)
+            stages.append(st)
+            yield
         obs = {"stages": stages}
-        if not is_arr and self._routes_comparable(case["ops"]):
+        if not is_arr and self._routes_comparable(case["ops"]) and self._plain_ops(case["ops"]):
             # the same chain in the vertex-array representation of the same set
             start = self._build(aa, case)
             arr = start.with_vertices(start.vertices)
@@ -540,64 +1139,487 @@ class C20(PropertyCheck):
             obs["array_route"] = {"triangles": tris_json(tris_from_array(np.asarray(arr.triangles, dtype=float))),
                                   "area": q(float(arr.area)), "n": int(len(arr))}
         if "shape" in case:
-            s = case["shape"]
-            ints = case.get("int_scalars", False)
-
-            def fl(v):
-                fr = F(v)
-                return int(fr) if ints and fr.denominator == 1 else float(fr)
-
-            if s["kind"] == "point":
-                shp = sh.Point(x=fl(s["x"]), y=fl(s["y"]))
-            elif s["kind"] == "circle":
-                shp = sh.Circle(x=fl(s["x"]), y=fl(s["y"]), radius=fl(s["radius"]))
-            elif s["kind"] == "square":
-                shp = sh.Square(top=fl(s["top"]), bottom=fl(s["bottom"]), left=fl(s["left"]), right=fl(s["right"]))
-            else:
-                shp = sh.Polygon(vertices=[[fl(a), fl(b)] if ints else (fl(a), fl(b)) for a, b in s["vertices"]])
+            shp = self._shape_obj(case["shape"], case, pool)
             obs["containing"] = [int(i) for i in np.asarray(obj.containing_indices(shp))]
             obs["ref"] = [q(float(shp.x)), q(float(shp.y))]
         return obs
 
-    # ------------------------------------------------------------------ model
-    def model_requests(self, case, impl_obs):
-        if "err" in impl_obs:
-            return []
-        st0 = impl_obs["stages"][0]
-        reqs = []
-        ops = case["ops"]
-        if case["kind"] == "arr":
-            arr = {"vertices": st0["vertices"], "indices": st0["indices"]}
-            for k in range(len(ops) + 1):
-                reqs.append({"op": "c20.arr_chain", "arr": arr, "ops": ops[:k]})
+    @staticmethod
+    def _plain_ops(ops):
+        return all((not isinstance(o, dict)) or "idx" in o for o in ops)
+
+    @staticmethod
+    def _drain(g):
+        try:
+            while True:
+                next(g)
+        except StopIteration as s:
+            return s.value
+
+    def run_impl(self, case):
+        aa = load_autoarray()
+        if case["kind"] == "big":
+            return self._run_big(aa, case)
+        if case["kind"] == "multi":
+            return self._run_multi(aa, case)
+        return self._drain(self._world(aa, case, {}))
+
+    def _run_multi(self, aa, case):
+        """several worlds in one history: executed one after the other, in reverse, or interleaved step by
+        step; optionally sharing the shape objects (same spec -> same object) and the root triangle set."""
+        worlds = case["worlds"]
+        pool = {} if case.get("share_shapes", True) else None
+        root = self._build(aa, worlds[0]) if case.get("share_root") else None
+        gens = [self._world(aa, w, pool if pool is not None else {}, root=root) for w in worlds]
+        out = [None] * len(worlds)
+        order = case.get("order", "seq")
+        if order == "interleave":
+            live = list(range(len(worlds)))
+            while live:
+                for i in list(live):
+                    try:
+                        next(gens[i])
+                    except StopIteration as s:
+                        out[i] = s.value
+                        live.remove(i)
         else:
-            if "limits" in case:
-                reqs.append({"op": "c20.coord_limits", "h": q(H), **case["limits"]})
-                coord = {"coords": st0["coords"], "side": case["limits"]["scale"], "x_offset": "0",
-                         "y_offset": "0", "flipped": False}
+            for i in (range(len(worlds)) if order == "seq" else reversed(range(len(worlds)))):
+                out[i] = self._drain(gens[i])
+        return {"worlds": out}
+
+    # ------------------------------------------------------------------ round 4: LARGE sets (no model comparison)
+    # A "big" case is a compact recipe; the arrays are derived from it with numpy.  The vectorised statement of
+    # the property (`_big_judge_*`, numpy on the implementation's outputs, independent formulas) alone judges it;
+    # the verdict travels in the observation so that no large array is kept or written to the evidence.
+    BIG_MAX_N = 70000
+
+    @staticmethod
+    def _big_coords(r):
+        i = np.arange(int(r["n"]), dtype=np.int64)
+        return np.stack([int(r["x0"]) + i % int(r["w"]), int(r["y0"]) + i // int(r["w"])], axis=1)
+
+    @staticmethod
+    def _big_arr(r):
+        rows, cols, n = int(r["rows"]), int(r["cols"]), int(r["n"])
+        A = np.array([[float(F(v)) for v in row] for row in r["A"]])
+        b = np.array([float(F(v)) for v in r["b"]])
+        cc, rr = np.meshgrid(np.arange(cols), np.arange(rows))
+        verts = np.stack([cc.ravel(), rr.ravel()], 1).astype(float) @ A.T + b
+        vid = lambda rw, cl: rw * cols + cl  # noqa: E731
+        r0, c0 = np.meshgrid(np.arange(rows - 1), np.arange(cols - 1), indexing="ij")
+        r0, c0 = r0.ravel(), c0.ravel()
+        t1 = np.stack([vid(r0, c0), vid(r0, c0 + 1), vid(r0 + 1, c0)], 1)
+        t2 = np.stack([vid(r0, c0 + 1), vid(r0 + 1, c0 + 1), vid(r0 + 1, c0)], 1)
+        idx = np.stack([t1, t2], 1).reshape(-1, 3)[:n]
+        return verts, idx
+
+    @staticmethod
+    def _big_idx(spec, n):
+        k, mode = int(spec["k"]), spec["mode"]
+        g = np.random.default_rng(int(spec["seed"]))
+        if mode == "bool":
+            m = np.zeros(n, dtype=bool)
+            m[g.permutation(n)[:min(k, n)]] = True
+            return m, np.flatnonzero(m)
+        if mode == "stride":
+            sel = (int(spec.get("start", 0)) + int(spec.get("step", 7)) * np.arange(k)) % n
+        else:
+            sel = g.integers(0, n, size=k)
+        sel = sel.astype(np.int32 if spec.get("form") == "int32" else np.int64)
+        return (sel.tolist() if spec.get("form") == "list" else sel), sel.astype(np.int64)
+
+    def _run_big(self, aa, case):
+        from autoarray.structures.triangles.array import ArrayTriangles
+        from autoarray.structures.triangles.coordinate_array import CoordinateArrayTriangles
+
+        r, is_arr = case["recipe"], case["rep"] == "arr"
+        fl = self._num(case)
+        if is_arr:
+            if "limits" in r:
+                L = r["limits"]
+                obj = ArrayTriangles.for_limits_and_scale(y_min=fl(L["y_min"]), y_max=fl(L["y_max"]), x_min=fl(L["x_min"]),
+                                                          x_max=fl(L["x_max"]), scale=fl(L["scale"]))
             else:
-                coord = {k: case[k] for k in ("coords", "side", "x_offset", "y_offset", "flipped")}
-            for k in range(len(ops) + 1):
-                reqs.append({"op": "c20.coord_chain", "coord": coord, "h": q(H), "ops": ops[:k]})
+                v, i = self._big_arr(r)
+                if r.get("vert_form") == "float32":
+                    v = v.astype(np.float32)
+                obj = ArrayTriangles(indices=i.astype(np.int32) if r.get("index_dtype") == "int32" else i, vertices=v)
+        elif "limits" in r:
+            L = r["limits"]
+            obj = CoordinateArrayTriangles.for_limits_and_scale(x_min=fl(L["x_min"]), x_max=fl(L["x_max"]),
+                                                                y_min=fl(L["y_min"]), y_max=fl(L["y_max"]), scale=fl(L["scale"]))
+        else:
+            co = self._big_coords(r)
+            obj = CoordinateArrayTriangles(coordinates=co.astype(float) if r.get("dtype") == "float64" else co,
+                                           side_length=fl(r["side"]), x_offset=fl(r["x_offset"]),
+                                           y_offset=fl(r["y_offset"]), flipped=bool(r["flipped"]))
+        snap = self._big_snap_arr if is_arr else self._big_snap_coord
+        prev = snap(obj)
+        ok, d = self._big_judge_stage(prev, is_arr, "stage 0")
+        summary = [{"n": prev["n"], "area": prev["area"]}]
+        n0 = prev["n"]
+        if not is_arr and "limits" in r and ok:
+            ok, d = self._big_judge_limits(r["limits"], prev)
+        for k, op in enumerate(case["ops"], 1):
+            if not ok:
+                break
+            sel = None
+            if op == "up":
+                obj = obj.up_sample()
+            elif op == "nb":
+                obj = obj.neighborhood()
+            elif "idxr" in op:
+                arg, sel = self._big_idx(op["idxr"], prev["n"])
+                obj = obj.for_indexes(arg)
+            else:
+                shp = self._shape_obj(op["sel"], case)
+                sel = np.asarray(obj.containing_indices(shp)).astype(np.int64)
+                ok, d = self._big_judge_contain(prev["T"], op["sel"], sel, f"stage {k} selection")
+                if not ok:
+                    break
+                obj = obj.for_indexes(sel)
+            cur = snap(obj)
+            summary.append({"n": cur["n"], "area": cur["area"]})
+            ok, d = self._big_judge_stage(cur, is_arr, f"stage {k}")
+            if ok:
+                ok, d = self._big_judge_step(k, op, sel, prev, cur, is_arr)
+            prev = cur
+        if ok and "shape" in case:
+            shp = self._shape_obj(case["shape"], case)
+            got = np.asarray(obj.containing_indices(shp)).astype(np.int64)
+            summary.append({"containing": int(len(got))})
+            ok, d = self._big_judge_contain(prev["T"], case["shape"], got, "final query")
+        return {"big": True, "n0": int(n0), "stages": summary, "verdict": [bool(ok), d]}
+
+    @staticmethod
+    def _big_snap_arr(a):
+        T = np.asarray(a.triangles, dtype=float)
+        return {"T": T, "n": int(len(a)), "area": float(a.area) if len(T) else 0.0,
+                "V": np.asarray(a.vertices, dtype=float), "I": np.asarray(a.indices)}
+
+    @staticmethod
+    def _big_snap_coord(c):
+        view = c.with_vertices(c.vertices)
+        return {"T": np.asarray(c.triangles, dtype=float), "n": int(len(c)), "area": float(c.area),
+                "C": np.asarray(c.coordinates), "side": float(c.side_length), "xo": float(c.x_offset),
+                "yo": float(c.y_offset), "flipped": bool(c.flipped), "fm": np.asarray(c.flip_mask),
+                "VT": np.asarray(view.triangles, dtype=float), "VV": np.asarray(view.vertices, dtype=float)}
+
+    @staticmethod
+    def _np_tol(*Ts):
+        m = 1.0
+        for T in Ts:
+            if len(T):
+                m = max(m, float(np.abs(T).max()))
+        return 1e-9 * m
+
+    def _big_judge_stage(self, s, is_arr, label):
+        T = s["T"]
+        if s["n"] != len(T):
+            return False, f"{label}: len() = {s['n']} but {len(T)} triangles"
+        tol = self._np_tol(T)
+        if is_arr:
+            if len(T) and not np.array_equal(s["V"][s["I"]], T):
+                return False, f"{label}: vertices[indices] != triangles"
+            ex = float(np.abs(np_area2(T)).sum() / 2)
+            if abs(s["area"] - ex) > 1e-9 * max(1.0, ex):
+                return False, f"{label}: area {s['area']} != sum of triangle areas {ex}"
+            return True, ""
+        C = s["C"]
+        if not np.all(C == np.round(C)):
+            return False, f"{label}: non-integer coordinates"
+        E = np_lattice(C, s["side"], s["xo"], s["yo"], s["flipped"])
+        bad = np.where(~np_rows_match(T, E, tol))[0]
+        if len(bad):
+            return False, (f"{label}: triangle {int(bad[0])} {T[bad[0]].tolist()} is not the equilateral lattice "
+                           f"triangle of coordinate {C[bad[0]].tolist()} ({len(bad)} such)")
+        ci = np.rint(C).astype(np.int64)
+        if not np.array_equal(s["fm"], (((ci[:, 0] + ci[:, 1]) % 2) != 0) != s["flipped"]):
+            return False, f"{label}: flip_mask does not match the orientation of the triangles"
+        ex = H_FLOAT / 2 * s["side"] ** 2 * len(T)
+        if abs(s["area"] - ex) > 1e-9 * max(1.0, ex):
+            return False, f"{label}: area {s['area']} != {ex}"
+        if len(s["VT"]) != len(T) or not np_rows_match(s["VT"], T, tol).all():
+            return False, f"{label}: with_vertices(vertices) does not describe the same triangles"
+        if len(np.unique(s["VV"], axis=0)) != len(s["VV"]):
+            return False, f"{label}: duplicate rows in the unique vertex table"
+        return True, ""
+
+    def _big_judge_limits(self, L, s):
+        """(quantifier) for_limits_and_scale: the coordinates form a full integer box without repetitions"""
+        C = np.rint(s["C"]).astype(np.int64)
+        xs, ys = np.unique(C[:, 0]), np.unique(C[:, 1])
+        if len(C) != len(xs) * len(ys) or len(np.unique(C, axis=0)) != len(C) or \
+                xs[-1] - xs[0] + 1 != len(xs) or ys[-1] - ys[0] + 1 != len(ys):
+            return False, "for_limits_and_scale: coordinates are not a full integer box"
+        return True, ""
+
+    def _big_judge_step(self, k, op, sel, p, c, is_arr):
+        P, T = p["T"], c["T"]
+        tol = self._np_tol(P, T)
+        if op == "up":
+            if len(T) != 4 * len(P):
+                return False, f"(a) up_sample: {len(P)} triangles became {len(T)}, expected {4 * len(P)}"
+            d = np_set_diff(T, np_children(P), tol, f"stage {k}: (a) up_sample children")
+            if d:
+                return False, d
+            if abs(p["area"] - c["area"]) > 4e-9 * max(1.0, p["area"]):
+                return False, f"(a) up_sample: total area {p['area']} -> {c['area']}"
+            qa = np.sort(np.abs(np_area2(T)))
+            pa = np.sort(np.repeat(np.abs(np_area2(P)) / 4, 4))
+            if len(qa) and np.abs(qa - pa).max() > 8 * tol * max(1.0, float(np.abs(T).max())):
+                return False, "(a) up_sample: children are not one quarter of their parents' areas"
+            if len(P):
+                from scipy.spatial import cKDTree
+
+                dist, _ = cKDTree(T.reshape(-1, 2)).query(P.reshape(-1, 2), k=1, p=np.inf)
+                if dist.max() > tol:
+                    return False, (f"(a) up_sample: original vertex {P.reshape(-1, 2)[int(dist.argmax())].tolist()} "
+                                   f"is lost")
+            if not is_arr and (c["side"] != p["side"] / 2 or not c["flipped"]):
+                pass  # representation detail; the lattice statement of the stage already ties side/flip to T
+            return True, ""
+        if op == "nb":
+            d = np_set_diff(T, np_neighbours(P), tol, f"stage {k}: (c) neighbourhood")
+            if d:
+                return False, d
+            if not is_arr and len(np.unique(np.rint(c["C"]).astype(np.int64), axis=0)) != len(T):
+                return False, f"stage {k}: (c) neighbourhood contains a triangle twice"
+            return True, ""
+        if len(sel) and (sel.min() < 0 or sel.max() >= len(P)):
+            return False, f"stage {k}: (d) selection addresses no triangle of the set"
+        S = P[sel]
+        if len(S) != len(T):
+            return False, f"(d) for_indexes: {len(S)} selected, {len(T)} returned"
+        bad = np.where(~np_rows_match(T, S, tol))[0] if len(T) else []
+        if len(bad):
+            return False, (f"stage {k}: (d) for_indexes: returned triangle {int(bad[0])} {T[bad[0]].tolist()} is not "
+                           f"the selected triangle {int(sel[bad[0]])} {S[bad[0]].tolist()} ({len(bad)} such)")
+        return True, ""
+
+    @staticmethod
+    def _big_judge_contain(T, s, got, label, margin=1e-7):
+        ref = shape_ref(s)
+        p = (float(ref[0]), float(ref[1]))
+        if len(got) and (got.min() < 0 or got.max() >= len(T)):
+            return False, f"{label}: reports index {int(got.max())} but the set has {len(T)} triangles"
+        rep = np.zeros(len(T), dtype=bool)
+        rep[got] = True
+        nondeg, m = np_bary_min(T, p)
+        miss = np.where(nondeg & (m >= margin) & ~rep)[0]
+        if len(miss):
+            return False, (f"{label}: (d) triangle {int(miss[0])} {T[miss[0]].tolist()} contains the {s['kind']}'s "
+                           f"reference point {p} but is not reported ({len(miss)} such)")
+        if s["kind"] == "point":
+            extra = np.where(nondeg & (m <= -margin) & rep)[0]
+            if len(extra):
+                return False, f"{label}: (d) triangle {int(extra[0])} reported as containing a point outside it"
+        return True, ""
+
+    # ------------------------------------------------------------------ round 4: constant-directed cases
+    def generate_large(self, hints, rng):
+        """cases on both sides of every new integer constant c of the anchored source, in every size dimension of
+        the property: coordinate MAGNITUDE (any c), refinement DEPTH (c <= 44), number of TRIANGLES of a
+        coordinate / vertex-array set and of for_limits_and_scale sets (so also vertices, 4x children, 4x
+        neighbours), length of an INDEX subset, number of polygon vertices (c <= BIG_MAX_N / 6000)."""
+        def around(c):
+            return [c - 1, c, c + 1, c + c // 3 + 1, 2 * c + 1]
+
+        hints = sorted({int(h) for h in hints})
+        # 1. magnitude: around every hint and around the format limits, both signs, both axes, both flip states
+        mags = sorted({m for c in hints for m in around(c) if m >= 8} | set(self.MAG_FIXED) | {2 ** 24, 2 ** 31})
+        yield from self._mag_cases(rng, mags, "large_mag")
+        # 2. depth of repeated up-sampling
+        depths = sorted({d for c in hints if c <= 44 for d in (c - 1, c, c + 1) if 2 <= d <= 46} | {24, 28})
+        for d in depths:
+            yield self._deep_case(rng, d, f"large_deep_{d}", d % 3, d % 2 == 0)
+        # 3. sizes
+        est = 0.0
+        for c in hints:
+            for n in (c + 1, c, c + c // 3 + 1, c - 1, 2 * c + 1):     # most telling first
+                lean = n > 20000
+                cost = n * (2e-4 if lean else 4e-4)                    # measured, pure Python / numpy, busy machine
+                if n < 8 or n > self.BIG_MAX_N or est + cost > 45.0:
+                    continue
+                est += cost
+                yield from self._big_cases(rng, n, c, lean)
+
+    def _big_cases(self, rng, n, c, lean=False):
+        side = rng.choice(["1/2", "1", "3/2", "1/4"])
+        w = max(3, int(math.isqrt(n) * rng.choice([0.37, 0.61, 1.9, 3.3])))     # non-square boxes, off-origin
+        rc = {"x0": rng.randint(-40, 40) - w // 2, "y0": rng.randint(-25, 25), "w": w, "n": n, "side": side,
+              "x_offset": q(gen.dyadic(rng, -4, 4, 3)), "y_offset": q(gen.dyadic(rng, -4, 4, 3)),
+              "flipped": rng.random() < 0.5, "dtype": rng.choice(["int64", "float64", "int64"])}
+        pt_c = coord_triangle(rc["x0"] + w // 2, rc["y0"] + (n // w) // 2, F(side), F(rc["x_offset"]), F(rc["y_offset"]),
+                              rc["flipped"])
+        pc = self._pt(pt_c, (F(1, 2), F(1, 4) + F(1, 64), F(1, 4) - F(1, 64)))
+        sub = {"idxr": {"mode": "stride", "k": n // 2 + 1, "seed": rng.randrange(1 << 30), "start": 3,
+                        "step": rng.choice([1, 7, 11]), "form": rng.choice(["int64", "int32", "list"])}}
+        boolsel = {"idxr": {"mode": "bool", "k": (2 * n) // 3, "seed": rng.randrange(1 << 30)}}
+        rep = {"idxr": {"mode": "rand", "k": n + n // 3 + 1, "seed": rng.randrange(1 << 30), "form": "int64"}}
+        variants = [(["up"], None), (["nb"], None), ([sub, "up"], None), ([boolsel, "nb"], pc if lean else None),
+                    ([rep], pc), ([{"sel": {"kind": "circle", "x": pc["x"], "y": pc["y"], "radius": "3"}}, "nb",
+                                   {"sel": pc}, "up"], pc)]
+        for ops, shape in (variants[:2] + variants[3:4] + variants[5:] if lean else variants):
+            case = {"tag": "large_coord", "kind": "big", "rep": "coord", "recipe": dict(rc), "ops": ops, "hint": c}
+            if shape:
+                case["shape"] = shape
+            yield case
+        # vertex-array sets: a sheared, anisotropic, off-origin triangulated grid (generic triangles, dyadic vertices)
+        cols = max(2, int(math.isqrt(n // 2 + 1) * rng.choice([0.45, 1.7, 2.9])) + 1)
+        rows = (n + 2 * (cols - 1) - 1) // (2 * (cols - 1)) + 1
+        ra = {"rows": rows, "cols": cols, "n": n, "A": rng.choice([[["1", "1/4"], ["-1/8", "3/4"]], [["1/2", "0"], ["3/8", "2"]],
+                                                                  [["3/2", "-1/2"], ["1/4", "1/2"]],
+                                                                  # not dyadic: vertices that no narrower float holds
+                                                                  [["1/3", "2/7"], ["-1/9", "5/11"]],
+                                                                  [["7/5", "0"], ["3/13", "9/7"]]]),
+              "b": [q(gen.dyadic(rng, -6, 6, 3)), q(gen.dyadic(rng, -6, 6, 3))],
+              "index_dtype": rng.choice(["int64", "int32"])}
+        va, ia = self._big_arr({**ra, "n": min(n, 4)})
+        ta = tuple((F(float(v[0])), F(float(v[1]))) for v in va[ia[min(n, 4) - 1]])
+        pa = self._pt(ta, (F(1, 4) + F(1, 32), F(1, 2), F(1, 4) - F(1, 32)))
+        variants = [(["up"], None), (["nb"], None), ([sub, "nb"], None), ([boolsel, "up"], pa), ([rep], pa)]
+        for ops, shape in (variants[:2] + variants[4:] if lean else variants):
+            case = {"tag": "large_arr", "kind": "big", "rep": "arr", "recipe": dict(ra), "ops": ops, "hint": c}
+            if shape:
+                case["shape"] = shape
+            yield case
+        # sets from limits and scale with about n triangles (both representations)
+        sc = rng.choice([F(1, 2), F(1), F(3, 4)])
+        wx = F(max(2, int(math.isqrt(n) * rng.choice([0.5, 1.4]))))
+        hy = max(F(1), (F(n) / (wx + 2) - 3) * F(866, 1000))      # about n coordinate triangles
+        x0, y0 = gen.dyadic(rng, -9, 9, 2), gen.dyadic(rng, -9, 9, 2)
+        lim = {"x_min": q(x0), "x_max": q(x0 + wx * sc / 2), "y_min": q(y0), "y_max": q(y0 + hy * sc),
+               "scale": q(sc)}
+        for repn in ("coord", "arr"):
+            for ops in (["up"], ["nb"]):
+                if lean and (repn == "coord") != (ops == ["up"]):
+                    continue
+                yield {"tag": f"large_{repn}_limits", "kind": "big", "rep": repn, "recipe": {"limits": lim}, "ops": ops,
+                       "hint": c}
+        # a polygon with about n vertices (n <= 6000: Polygon.mask is a Python loop over its fan triangles)
+        if n <= 6000:
+            k = max(3, n)
+            ang = [2 * math.pi * i / k for i in range(k)]
+            small = {**rc, "n": min(n, 600) + 7, "w": 23}
+            ps = self._pt(coord_triangle(small["x0"] + 3, small["y0"], F(side), F(rc["x_offset"]), F(rc["y_offset"]),
+                                         rc["flipped"]), (F(1, 2), F(1, 4), F(1, 4)))
+            cx, cy = F(ps["x"]), F(ps["y"])
+            vs = [[q(cx + F(round(math.cos(a) * 64), 64)), q(cy + F(round(math.sin(a) * 48), 64))] for a in ang]
+            yield {"tag": "large_polygon", "kind": "big", "rep": "coord", "recipe": small, "ops": [],
+                   "shape": {"kind": "polygon", "vertices": vs}, "hint": c}
+
+    # ------------------------------------------------------------------ model
+    def _layout(self, case):
+        """the driver requests of one world, as slots (depends on the case only, not on the observation)"""
+        ops = case["ops"]
+        slots = []
+        if case["kind"] == "coord" and "limits" in case:
+            slots.append(("limits",))
+        for k in range(len(ops) + 1):
+            slots.append(("stage", k))
+            for i in range(len(case.get("probe", []))):
+                slots.append(("probe", k, i))
+            if k > 0 and isinstance(ops[k - 1], dict) and ops[k - 1].get("fault") == "flaky_shape":
+                slots.append(("after", k))
         if "shape" in case:
-            reqs.append({"op": "c20.shape_mask", "triangles": impl_obs["stages"][-1]["triangles"],
-                         "shape": case["shape"]})
+            slots.append(("shape",))
+        return slots
+
+    @staticmethod
+    def _probe_specs(case, k):
+        """the probe shapes as they are after the first k steps (shape_edit steps edit them in place)"""
+        specs = [dict(s) for s in case.get("probe", [])]
+        for op in case["ops"][:k]:
+            if isinstance(op, dict) and "shape_edit" in op:
+                e = op["shape_edit"]
+                for key in ("x", "y", "radius"):
+                    if key in e:
+                        specs[int(e["i"])][key] = e[key]
+        return specs
+
+    def _model_chain(self, case, obs, k):
+        """(anchor set, model operations) describing a FRESH object in the state after the first k steps"""
+        st0 = obs["stages"][0]
+        if case["kind"] == "arr":
+            anchor = {"vertices": st0["vertices"], "indices": st0["indices"]}
+        elif "limits" in case:
+            anchor = {"coords": st0["coords"], "side": case["limits"]["scale"], "x_offset": "0",
+                      "y_offset": "0", "flipped": False}
+        else:
+            anchor = {key: case[key] for key in ("coords", "side", "x_offset", "y_offset", "flipped")}
+        mops = []
+        for j, op in enumerate(case["ops"][:k]):
+            if not isinstance(op, dict) or "idx" in op:
+                mops.append(op)
+            elif "sel" in op:
+                mops.append({"idx": obs["stages"][j + 1]["sel_idx"]})
+            elif "edit" in op:
+                prev = obs["stages"][j]
+                vs = [list(v) for v in prev["vertices"]]
+                vs[int(op["edit"]["v"])] = [q(F(op["edit"]["to"][0])), q(F(op["edit"]["to"][1]))]
+                anchor, mops = {"vertices": vs, "indices": prev["indices"]}, []
+            # fault / shape_edit steps leave the set as it is
+        return anchor, mops
+
+    def _world_requests(self, case, obs):
+        reqs = []
+        for slot in self._layout(case):
+            if slot[0] == "limits":
+                reqs.append({"op": "c20.coord_limits", "h": q(H), **case["limits"]})
+            elif slot[0] == "stage":
+                anchor, mops = self._model_chain(case, obs, slot[1])
+                if case["kind"] == "arr":
+                    reqs.append({"op": "c20.arr_chain", "arr": anchor, "ops": mops})
+                else:
+                    reqs.append({"op": "c20.coord_chain", "coord": anchor, "h": q(H), "ops": mops})
+            elif slot[0] == "probe":
+                reqs.append({"op": "c20.shape_mask", "triangles": obs["stages"][slot[1]]["triangles"],
+                             "shape": self._probe_specs(case, slot[1])[slot[2]]})
+            elif slot[0] == "after":
+                op = case["ops"][slot[1] - 1]
+                reqs.append({"op": "c20.shape_mask", "triangles": obs["stages"][slot[1]]["triangles"],
+                             "shape": {"kind": "point", "x": op["x"], "y": op["y"]}})
+            else:
+                reqs.append({"op": "c20.shape_mask", "triangles": obs["stages"][-1]["triangles"],
+                             "shape": case["shape"]})
         return reqs
 
-    def model_obs(self, case, responses):
+    def model_requests(self, case, impl_obs):
+        if "err" in impl_obs or case["kind"] == "big":
+            return []      # "big" cases: no model comparison, the vectorised oracle alone judges them
+        if case["kind"] == "multi":
+            return [r for w, o in zip(case["worlds"], impl_obs["worlds"]) for r in self._world_requests(w, o)]
+        return self._world_requests(case, impl_obs)
+
+    def _world_model_obs(self, case, responses):
         for r in responses:
             if "err" in r:
                 return {"err": r["err"]}
-        rs = [r["ok"] for r in responses]
-        out = {}
-        if case["kind"] == "coord" and "limits" in case:
-            out["limits_coords"] = rs.pop(0)
-        n = len(case["ops"]) + 1
-        out["stages"] = rs[:n]
-        if "shape" in case:
-            out["containing"] = rs[n]["indices"]
-            out["ref"] = rs[n]["ref"]
+        out = {"stages": [], "probes": {}, "after": {}}
+        for slot, r in zip(self._layout(case), responses):
+            r = r["ok"]
+            if slot[0] == "limits":
+                out["limits_coords"] = r
+            elif slot[0] == "stage":
+                out["stages"].append(r)
+            elif slot[0] == "probe":
+                out["probes"][f"{slot[1]}:{slot[2]}"] = r
+            elif slot[0] == "after":
+                out["after"][str(slot[1])] = r
+            else:
+                out["containing"], out["ref"] = r["indices"], r["ref"]
         return out
+
+    def model_obs(self, case, responses):
+        if case["kind"] == "multi":
+            out, a = [], 0
+            for w in case["worlds"]:
+                n = len(self._layout(w))
+                out.append(self._world_model_obs(w, responses[a:a + n]))
+                a += n
+            return {"worlds": out}
+        return self._world_model_obs(case, responses)
 
     def _limits_band(self, case):
         """int() truncations of for_limits_and_scale inside the 1e-9 band of an integer?"""
@@ -616,6 +1638,15 @@ class C20(PropertyCheck):
     def compare(self, case, impl_obs, model_obs, cmp):
         if "err" in impl_obs or "err" in model_obs:
             return cmp.diff(impl_obs, model_obs)
+        if case["kind"] == "multi":
+            for i, (w, oi, om) in enumerate(zip(case["worlds"], impl_obs["worlds"], model_obs["worlds"])):
+                d = cmp.diff(oi, om) if ("err" in oi or "err" in om) else self._world_compare(w, oi, om, cmp)
+                if d:
+                    return f"world {i}: {d}"
+            return None
+        return self._world_compare(case, impl_obs, model_obs, cmp)
+
+    def _world_compare(self, case, impl_obs, model_obs, cmp):
         is_arr = case["kind"] == "arr"
         if "limits_coords" in model_obs:
             if self._limits_band(case):
@@ -659,6 +1690,24 @@ class C20(PropertyCheck):
                              [fr_tri(t) for t in sm["view_triangles"]], tol, p + ".view_triangles")
                 if d:
                     return d
+            # round 4: containing_indices of every probe shape at every stage (fresh-object expectation)
+            specs = self._probe_specs(case, k) if "containing" in si else []
+            for i, spec in enumerate(specs):
+                band = self._band(ti, spec, (F(si["refs"][i][0]), F(si["refs"][i][1])))
+                a = [x for x in si["containing"][i] if x not in band]
+                b = [x for x in model_obs["probes"][f"{k}:{i}"]["indices"] if x not in band]
+                d = cmp.diff(a, b, f"{p}.containing[{i}]")
+                if d:
+                    return d
+            if "after" in si:
+                op = case["ops"][k - 1]
+                spec = {"kind": "point", "x": op["x"], "y": op["y"]}
+                band = self._band(ti, spec, (F(si["after_ref"][0]), F(si["after_ref"][1])))
+                a = [x for x in si["after"] if x not in band]
+                b = [x for x in model_obs["after"][str(k)]["indices"] if x not in band]
+                d = cmp.diff(a, b, f"{p}.containing_after_fault")
+                if d:
+                    return d
         if "containing" in impl_obs:
             band = self._band_triangles(case, impl_obs)
             a = [i for i in impl_obs["containing"] if i not in band]
@@ -671,10 +1720,10 @@ class C20(PropertyCheck):
     # which triangles have a containment decision inside the float band for this shape
     def _band_triangles(self, case, obs):
         ts = [fr_tri(t) for t in obs["stages"][-1]["triangles"]]
-        s = case["shape"]
+        return self._band(ts, case["shape"], (F(obs["ref"][0]), F(obs["ref"][1])))
+
+    def _band(self, ts, s, ref):
         band = set()
-        pts_tests = []   # (point, triangle-as-shape or None)
-        ref = (F(obs["ref"][0]), F(obs["ref"][1]))
         for i, t in enumerate(ts):
             if self._near(t, ref):
                 band.add(i)
@@ -721,6 +1770,67 @@ class C20(PropertyCheck):
     def oracle(self, case, obs):
         if "err" in obs:
             return False, f"implementation raised {obs}"
+        if case["kind"] == "big":
+            return bool(obs["verdict"][0]), obs["verdict"][1]
+        if case["kind"] == "multi":
+            for i, (w, o) in enumerate(zip(case["worlds"], obs["worlds"])):
+                ok, d = self._world_oracle(w, o)
+                if not ok:
+                    return False, f"world {i} (history order {case.get('order', 'seq')}): {d}"
+            return True, ""
+        return self._world_oracle(case, obs)
+
+    def _oracle_contain(self, ts, s, got, label):
+        """(d) a triangle is reported as containing a shape whenever the shape's reference point lies inside
+        it; for a point nothing else is reported; reported indices address triangles of THIS set."""
+        ref = shape_ref(s)
+        gs = set(got)
+        for i in got:
+            if not 0 <= i < len(ts):
+                return False, f"{label}: reports index {i} but the set has {len(ts)} triangles"
+        for i, t in enumerate(ts):
+            ins, margin = inside_closed(t, ref)
+            if ins and i not in gs:
+                if margin <= 8 * TOL and self._near(t, ref):
+                    continue
+                return False, (f"{label}: (d) triangle {i} {[tuple(map(float, v)) for v in t]} contains the "
+                               f"{s['kind']}'s reference point {tuple(map(float, ref))} but is not reported")
+            if s["kind"] in ("point", "flaky") and not ins and i in gs and margin > 8 * TOL:
+                return False, f"{label}: (d) triangle {i} reported as containing a point outside it"
+        return True, ""
+
+    def _lattice_step(self, k, op, pst, st):
+        """exact statement of one step of a coordinate set in terms of the integer coordinates the
+        implementation reports: the lattice triangles of the new coordinates are the midpoint children /
+        the edge reflections / the selection of the lattice triangles of the old ones, at a tolerance tied
+        to the TRIANGLE size (1e-9*side), whatever the magnitude of the coordinates."""
+        ps, pxo, pyo = F(pst["side"]), F(pst["x_offset"]), F(pst["y_offset"])
+        cs, cxo, cyo = F(st["side"]), F(st["x_offset"]), F(st["y_offset"])
+        P = [coord_triangle(x, y, ps, pxo, pyo, pst["flipped"]) for x, y in pst["coords"]]
+        C = [coord_triangle(x, y, cs, cxo, cyo, st["flipped"]) for x, y in st["coords"]]
+        if op == "up":
+            E, what = [c for t in P for c in expected_children(t)], "(a,b) up_sample"
+        elif op == "nb":
+            E, what = [c for t in P for c in expected_neighbours(t)], "(c) neighbourhood"
+        else:
+            E, what = [P[i] for i in op["idx"]], "(d) for_indexes"
+        tol = TOL * min(ps, cs) + 4 * F(EPS) * max(abs(pyo), abs(cyo), abs(pxo), abs(cxo), 1)
+        kc, ke = lattice_keys(C, ps, pxo, pyo, tol), lattice_keys(E, ps, pxo, pyo, tol)
+        if kc is None:
+            return False, (f"stage {k}: {what}: the lattice triangles of the new coordinates do not lie on the "
+                           f"midpoint lattice of the old ones (side/offsets inconsistent)")
+        from collections import Counter
+
+        a, b = (set(kc), set(ke)) if op == "nb" else (Counter(kc), Counter(ke))
+        if a != b:
+            extra = [t for t in (a if op == "nb" else list(a.elements())) if t not in b][:1]
+            miss = [t for t in (b if op == "nb" else list(b.elements())) if t not in a][:1]
+            return False, (f"stage {k}: {what}: integer coordinates {st['coords'][:6]}... describe lattice triangles "
+                           f"that are not exactly the expected ones of {pst['coords'][:6]}... "
+                           f"(in units side/4, h*side/2: unexpected {extra}, missing {miss})")
+        return True, ""
+
+    def _world_oracle(self, case, obs):
         is_arr = case["kind"] == "arr"
         stages = obs["stages"]
         for k, st in enumerate(stages):
@@ -755,11 +1865,57 @@ class C20(PropertyCheck):
                 vv = [tuple(v) for v in st["view_vertices"]]
                 if len(set(vv)) != len(vv):
                     return False, f"stage {k}: duplicate rows in the unique vertex table"
+            if k == 0 and not is_arr and "limits" in case:
+                # "produced from limits and scale": the triangles have side `scale` on the un-shifted lattice
+                if F(st["side"]) != F(case["limits"]["scale"]) or F(st["x_offset"]) != 0 or F(st["y_offset"]) != 0 \
+                        or st["flipped"]:
+                    return False, (f"for_limits_and_scale(scale={float(F(case['limits']['scale']))!r}) returned a set of "
+                                   f"side {float(F(st['side']))!r}, offsets ({st['x_offset']}, {st['y_offset']}), "
+                                   f"flipped={st['flipped']}")
+            # round 4: every probe shape, at every stage of the history
+            if "containing" in st:
+                for i, spec in enumerate(self._probe_specs(case, k)):
+                    ok, d = self._oracle_contain(ts, spec, st["containing"][i],
+                                                 f"stage {k} (after {self._ops_str(case['ops'][:k])}) probe {i}")
+                    if not ok:
+                        return False, d
             if k == 0:
                 continue
             op = case["ops"][k - 1]
             prev = [fr_tri(t) for t in stages[k - 1]["triangles"]]
             ptol = TOL * max(scale_of(prev), scale_of(ts))
+            if isinstance(op, dict) and "sel" in op:
+                ok, d = self._oracle_contain(prev, op["sel"], st["sel_idx"], f"stage {k} selection")
+                if not ok:
+                    return False, d
+                op = {"idx": st["sel_idx"]}
+            if isinstance(op, dict) and ("fault" in op or "shape_edit" in op):
+                # the step leaves the set alone: the same object must still describe the same triangles
+                if len(ts) != len(prev) or set_diff(ts, prev, ptol, ""):
+                    return False, (f"stage {k}: the set changed although the step ({op}) does not alter it "
+                                   f"(fault-then-reuse / shape edit)")
+                if not is_arr and st["coords"] != stages[k - 1]["coords"]:
+                    return False, f"stage {k}: coordinates changed by a step that does not alter the set"
+                if "after" in st:
+                    ok, d = self._oracle_contain(ts, {"kind": "point", "x": op["x"], "y": op["y"]}, st["after"],
+                                                 f"stage {k} query after a failed query")
+                    if not ok:
+                        return False, d
+                continue
+            if isinstance(op, dict) and "edit" in op:
+                # in-place edit of one vertex: the triangles are those of a fresh set with that vertex table
+                pv = [(F(a), F(b)) for a, b in stages[k - 1]["vertices"]]
+                pv[int(op["edit"]["v"])] = (F(op["edit"]["to"][0]), F(op["edit"]["to"][1]))
+                exp = [tuple(pv[i] for i in r) for r in stages[k - 1]["indices"]]
+                if len(exp) != len(ts) or set_diff(ts, exp, ptol, ""):
+                    return False, (f"stage {k}: after editing vertex {op['edit']['v']} in place the set does not "
+                                   f"describe the triangles of the edited vertex table (stale derived state)")
+                continue
+            sharp = (not is_arr) and scale_of(ts) > SHARP_RATIO * min(F(st["side"]), F(stages[k - 1]["side"]))
+            if sharp:
+                ok, d = self._lattice_step(k, op, stages[k - 1], st)
+                if not ok:
+                    return False, d
             if op == "up":
                 # (a) count x4, area conserved, exact tiling by midpoint children, old vertices kept
                 if len(ts) != 4 * len(prev):
@@ -786,6 +1942,8 @@ class C20(PropertyCheck):
                 if d:
                     return False, d
             else:
+                if any(not 0 <= i < len(prev) for i in op["idx"]):
+                    return False, f"(d) for_indexes: selection {op['idx'][:8]} addresses no triangle of the set"
                 sel = [prev[i] for i in op["idx"]]
                 if len(ts) != len(sel):
                     return False, f"(d) for_indexes: {len(sel)} selected, {len(ts)} returned"
@@ -796,42 +1954,37 @@ class C20(PropertyCheck):
             # both representations of the same set give the same triangles after the same chain
             ar = [fr_tri(t) for t in obs["array_route"]["triangles"]]
             fin = [fr_tri(t) for t in stages[-1]["triangles"]]
-            d = set_diff(fin, ar, TOL * max(scale_of(fin), scale_of(ar)) * 4,
-                         "(b,c) coordinate route vs vertex-array route")
+            sc = max(scale_of(fin), scale_of(ar))
+            d = set_diff(fin, ar, TOL * sc * 4, "(b,c) coordinate route vs vertex-array route")
             if d:
                 return False, d
             if "nb" not in case["ops"]:
                 if obs["array_route"]["n"] != stages[-1]["n"]:
                     return False, "(b) counts differ between the representations"
                 a0, a1 = F(obs["array_route"]["area"]), F(stages[-1]["area"])
-                if abs(a0 - a1) > 4 * TOL * max(1, a0):
+                # the vertex-array area formula cancels: far from the origin (scale >> side) its float error is
+                # ~eps*scale^2, so there the 1e-9 is taken relative to scale^2 as for the vertices themselves
+                far = sc > SHARP_RATIO * F(stages[-1]["side"])
+                if abs(a0 - a1) > 4 * TOL * max(1, a0, sc * sc if far else 0):
                     return False, "(b) areas differ between the representations"
         if "containing" in obs:
             ts = [fr_tri(t) for t in stages[-1]["triangles"]]
-            s = case["shape"]
-            # reference point of the shape, independently
-            if s["kind"] in ("point", "circle"):
-                ref = (F(s["x"]), F(s["y"]))
-            elif s["kind"] == "square":
-                ref = ((F(s["left"]) + F(s["right"])) / 2, (F(s["top"]) + F(s["bottom"])) / 2)
-            else:
-                vs = [(F(a), F(b)) for a, b in s["vertices"]]
-                ref = (sum(v[0] for v in vs) / len(vs), sum(v[1] for v in vs) / len(vs))
-            got = set(obs["containing"])
-            for i, t in enumerate(ts):
-                ins, margin = inside_closed(t, ref)
-                if ins and i not in got:
-                    if margin <= 8 * TOL and self._near(t, ref):
-                        continue
-                    return False, (f"(d) triangle {i} {[tuple(map(float, v)) for v in t]} contains the "
-                                   f"{s['kind']}'s reference point {tuple(map(float, ref))} but is not reported")
-                if s["kind"] == "point" and not ins and i in got and margin > 8 * TOL:
-                    return False, f"(d) triangle {i} reported as containing a point outside it"
+            ok, d = self._oracle_contain(ts, case["shape"], obs["containing"], "final query")
+            if not ok:
+                return False, d
         return True, ""
+
+    @staticmethod
+    def _ops_str(ops):
+        return "-".join(o if isinstance(o, str) else next(iter(o)) for o in ops) or "build"
 
     def nontrivial(self, case, obs):
         if "err" in obs:
             return False
+        if case["kind"] == "big":
+            return obs.get("n0", 0) > 0 and len(case["ops"]) + ("shape" in case) > 0
+        if case["kind"] == "multi":
+            return any(self.nontrivial(w, o) for w, o in zip(case["worlds"], obs["worlds"]))
         ts = [fr_tri(t) for t in obs["stages"][0]["triangles"]]
         if not any(area2(t) != 0 for t in ts):
             return False
@@ -840,17 +1993,55 @@ class C20(PropertyCheck):
         return len(case["ops"]) > 0
 
     def shrink(self, case):
-        if case["kind"] == "coord" and "coords" in case and len(case["coords"]) > 1 and not any(
-                isinstance(o, dict) for o in case["ops"]):
+        if case["kind"] == "big":
+            return
+        if case["kind"] == "multi":
+            ws = case["worlds"]
+            if len(ws) > 2:     # never below two worlds: the history (shared objects, order) is the point, and a
+                for i in range(len(ws)):   # single world may only fail here because of state left in this process
+                    yield {**case, "worlds": ws[:i] + ws[i + 1:]}
+            for i, w in enumerate(ws):
+                for w2 in self.shrink(w):
+                    if not (case.get("share_root") and any(w2.get(k) != w.get(k) for k in
+                                                           ("coords", "vertices", "indices", "limits"))):
+                        yield {**case, "worlds": ws[:i] + [w2] + ws[i + 1:]}
+            return
+        plain = not any(isinstance(o, dict) for o in case["ops"])
+        no_idx = not any(isinstance(o, dict) and ("idx" in o or "edit" in o) for o in case["ops"])
+        if case["kind"] == "coord" and "coords" in case and len(case["coords"]) > 1 and no_idx:
             for i in range(len(case["coords"])):
                 yield {**case, "coords": case["coords"][:i] + case["coords"][i + 1:]}
-        if len(case["ops"]) > 1 and not any(isinstance(o, dict) for o in case["ops"]):
+        if len(case["ops"]) > 1 and plain:
             yield {**case, "ops": case["ops"][:-1]}
             yield {**case, "ops": case["ops"][1:]}
+        elif len(case["ops"]) > 0 and not plain:
+            yield {**case, "ops": case["ops"][:-1]}       # a prefix of a history is a history
+            if no_idx and not any(isinstance(o, dict) and "shape_edit" in o for o in case["ops"]):
+                yield {**case, "ops": case["ops"][1:]}
+        if case.get("decoy"):
+            yield {k: v for k, v in case.items() if k != "decoy"}
+        if len(case.get("probe", [])) > 1 and not any(isinstance(o, dict) and "shape_edit" in o for o in case["ops"]):
+            for i in range(len(case["probe"])):
+                yield {**case, "probe": case["probe"][:i] + case["probe"][i + 1:]}
+
+    def sample_view(self, case):
+        """large / long cases are recipes already; cap what goes into the evidence"""
+        c = {k: v for k, v in case.items() if k != "_impl"}
+        if case.get("kind") == "multi":
+            return {**c, "worlds": [self.sample_view(w) for w in case["worlds"]]}
+        for key in ("coords", "vertices", "indices"):
+            if isinstance(c.get(key), list) and len(c[key]) > 400:
+                c[key] = {"n": len(c[key]), "first": c[key][:8], "last": c[key][-4:]}
+        return c
 
     def theorems_for(self, case):
-        if "shape" in case:
-            return ["C20.d_point_mask_iff", "C20.d_shape_masks_contain_reference_point"]
+        if case["kind"] == "multi":
+            return sorted({t for w in case["worlds"] for t in self.theorems_for(w)})
+        if case["kind"] == "big":
+            case = {"kind": case["rep"], **({"shape": 1} if "shape" in case else {})}
+        if "shape" in case or "probe" in case:
+            return ["C20.d_point_mask_iff", "C20.d_shape_masks_contain_reference_point", "C20.d_for_indexes",
+                    "C20.c_coord_neighbours", "C20.c_neighbourhood_array"]
         if case["kind"] == "coord":
             return ["C20.b_coord_up_sample_structure", "C20.b_coord_children_are_midpoint_children",
                     "C20.b_coord_up_sample_same_triangles", "C20.c_coord_neighbours",
